@@ -1405,7 +1405,8 @@ func genSnapshot(r *rand.Rand, id string, size int, total int) []string {
 		}
 	}
 	g.add("obs %d", p)
-	if g.pick(3) == 0 {
+	raced := g.pick(3) == 0
+	if raced {
 		// the log grows while the snapshot is being written
 		g.add("snapsaverace %d %d", p, 1+g.pick(4))
 	} else {
@@ -1425,7 +1426,13 @@ func genSnapshot(r *rand.Rand, id string, size int, total int) []string {
 		}
 		g.add("obs %d", p)
 	}
-	g.add("restartsnap %d", p)
+	if late == 0 && !raced && !pendingQueue && g.pick(3) == 0 {
+		// the store has looked at its newest entries before it asks for the snapshot: what lies below them
+		// must still come
+		g.add("restartsnap %d pre=%d", p, 1+g.pick(3))
+	} else {
+		g.add("restartsnap %d", p)
+	}
 	g.add("obs %d", p)
 	if late > 0 {
 		// (this write ties with the first late one — same writer, same Lamport time — and the order of
